@@ -138,14 +138,25 @@ def _occurrence(ctx, s, sep, last=False):
         else:  # no occurrence starts after this one
             ctx.assume(mk_bool(z3.Not(z3.Contains(z3.Concat(_s(sep[1:]), t.t) if len(sep) > 1 else t.t, sep_t))))
         res = (True, h, t)
+        _remember(ctx, s, h, sep, t)
     else:
         res = (False, None, None)
     cache[key] = (res, s.t, sep_t)
     return res
 
 
+def _remember(ctx, s, pre, sep, post):
+    """s == pre ++ sep ++ post is known on this path (used to answer slices at these positions without substr terms)."""
+    ctx.ghost.setdefault('$splits', []).append((s.t, pre, sep, post))
+
+
 def _literal(x):
     return isinstance(x, (str, bytes)) and len(x) > 0
+
+
+def _borderless(sep):
+    """No proper prefix of sep is also a suffix: occurrences of sep never overlap."""
+    return all(sep[:k] != sep[-k:] for k in range(1, len(sep)))
 
 
 def _hook_partition(ctx, s, sep):
@@ -164,10 +175,61 @@ def _hook_find(ctx, s, sub, start=0):
 
 
 def _hook_rfind(ctx, s, sub):
+    """Last occurrence, derived from the first one: it is the first one unless the rest contains another."""
     if not _literal(sub):
         return NotImplemented
-    found, h, t = _occurrence(ctx, s, sub, last=True)
-    return h.length() if found else -1
+    if not _borderless(sub):
+        found, h, t = _occurrence(ctx, s, sub, last=True)
+        return h.length() if found else -1
+    found, h, t = _occurrence(ctx, s, sub)
+    if not found:
+        return -1
+    if not isinstance(t, SStr):
+        return h.length() + (len(sub) + t.rfind(sub) if sub in t else 0)
+    more, h2, t2 = _occurrence(ctx, t, sub, last=True)
+    if not more:
+        return h.length()
+    pre = h + sub + h2
+    _remember(ctx, s, pre, sub, t2)
+    return Len(pre)
+
+
+def _same_int(a, b):
+    d = z3.simplify(_zi(a) - _zi(b))
+    return z3.is_int_value(d) and d.as_long() == 0
+
+
+def _zi(x):
+    return x.t if hasattr(x, 't') else z3.IntVal(int(x))
+
+
+def _hook_slice(ctx, s, lo, hi):
+    """s[lo:hi] where a bound is the position of a known occurrence: answered from the decomposition."""
+    for (term, pre, sep, post) in ctx.ghost.get('$splits', ()):
+        if not term.eq(s.t):
+            continue
+        n_pre = Len(pre)
+        if hi is None and lo is not None and _same_int(lo, n_pre + len(sep)):
+            return post
+        if hi is None and lo is not None and _same_int(lo, n_pre):
+            return sep + post
+        if hi is not None and _same_int(hi, n_pre) and (lo is None or isinstance(lo, int) and lo >= 0):
+            if not lo:
+                return pre
+            if isinstance(pre, SStr):
+                # pre[lo:] for a small literal lo: split off the first lo characters
+                cache = ctx.ghost.setdefault('$drop', {})
+                key = (pre.t.get_id(), lo)
+                if key not in cache:
+                    if ctx.branch(z3.Length(pre.t) >= lo, label='long-enough'):
+                        a, b = ctx.fresh_str('first%d' % lo, pre.kind), ctx.fresh_str('rest', pre.kind)
+                        ctx.assume(mk_bool(z3.And(pre.t == z3.Concat(a.t, b.t), z3.Length(a.t) == lo)))
+                        cache[key] = (b, pre.t)
+                    else:
+                        cache[key] = ('' if pre.kind == 'str' else b'', pre.t)
+                return cache[key][0]
+            return pre[lo:]
+    return NotImplemented
 
 
 MAX_PIECES = 3
@@ -194,7 +256,7 @@ def _split_model(ctx, s, sep, maxsplit=-1):
 def _base_setup(reg, ex):
     reg.int_parser = int_model
     ex.codec_handler = latin1_codec
-    ex.str_hooks = {'partition': _hook_partition, 'find': _hook_find, 'rfind': _hook_rfind}
+    ex.str_hooks = {'partition': _hook_partition, 'find': _hook_find, 'rfind': _hook_rfind, 'slice': _hook_slice}
     ex.split_handler = _split_model
 
 
@@ -415,6 +477,7 @@ class Parser:
         self.v, self.label, self.mk_results, self.may_raise = v, label, results, may_raise
         self.calls = []
         self.returned = []
+        self.log = []
         self.raised = 0
 
     def __call__(self, *args, **kwargs):
@@ -424,9 +487,11 @@ class Parser:
         k = v.choose(n, self.label + '-outcome')
         if k == len(self.mk_results):
             self.raised += 1
+            self.log.append(('raised', None))
             throw(v, ValueError, '%s: malformed value' % self.label)
         r = self.mk_results[k]()
         self.returned.append(r)
+        self.log.append(('returned', r))
         return r
 
 
@@ -896,27 +961,14 @@ def default_port(env):
 
 
 def host_header(v):
-    """Shapes of a Host header value (RFC 9110 7.2 / RFC 3986 3.2: host [":" port]); shape 1 is any string at all."""
-    shape = v.choose(5, 'host-shape')
-    if shape == 0:
-        return shape, None, None
-    if shape == 1:
-        return shape, v.str('HTTP_HOST'), None
-    if shape == 2:  # reg-name / IPv4 with a decimal port
-        name, port = v.str('reg_name'), v.str('port')
-        v.assume(And(Not(contains(name, ':')), Not(name.startswith('[')), is_digits(port)))
-        return shape, name + ':' + port, (name, port)
-    if shape == 3:  # IP-literal with a decimal port
-        addr, port = v.str('ip_literal'), v.str('port')
-        v.assume(And(Not(contains(addr, ']')), is_digits(port)))
-        return shape, '[' + addr + ']:' + port, (addr, port)
-    addr = v.str('ip_literal')  # IP-literal without a port
-    v.assume(Not(contains(addr, ']')))
-    return shape, '[' + addr + ']', (addr, None)
+    """The Host header: absent, or any string at all."""
+    if v.choose(2, 'has-HTTP_HOST') == 0:
+        return None
+    return v.str('HTTP_HOST')
 
 
-def spec_host_port(v, env, shape, parts, out, what):
-    """`what` is 'host' or 'port'.  RFC 3986 authority reading of the Host header, PEP 3333 SERVER_* otherwise."""
+def spec_host_port(v, env, out, what):
+    """`what` is 'host' or 'port'.  RFC 3986 authority reading (host [":" port]) of the Host header, PEP 3333 SERVER_* otherwise."""
     escape_only_400(v, out)
     dflt = default_port(env)
     raw = env.get('HTTP_HOST')
@@ -929,20 +981,17 @@ def spec_host_port(v, env, shape, parts, out, what):
         expect('without-host-header-the-server-name-and-port-are-used', env['SERVER_NAME'], digits_value(env['SERVER_PORT']))
         v.cover('no-host-header')
         return
-    if shape == 2:
-        expect('name-colon-digits-splits-into-host-and-port', parts[0], digits_value(parts[1]))
-        v.cover('name-port')
-        return
-    if shape == 3:
-        expect('bracketed-literal-with-port-splits-into-address-and-port', parts[0], digits_value(parts[1]))
-        v.cover('literal-port')
-        return
-    if shape == 4:
-        expect('bracketed-literal-without-port-gets-the-scheme-default-port', parts[0], dflt)
-        v.cover('literal')
-        return
-    # any string
     if raw.startswith('['):
+        # IP-literal: the address is the text between the leading '[' and the last ']:' (or the final character), the port follows ']:'
+        if contains(raw, ']:'):
+            pos = raw.rfind(']:')
+            port = raw[pos + 2:]
+            if is_digits(port):
+                expect('bracketed-literal-with-port-splits-into-address-and-port', raw[1:pos], digits_value(port))
+                v.cover('literal-port')
+        else:
+            expect('bracketed-literal-without-port-gets-the-scheme-default-port', raw[1:-1], dflt)
+            v.cover('literal')
         return
     name, sep, rest = raw.partition(':')
     if not sep:
@@ -953,25 +1002,23 @@ def spec_host_port(v, env, shape, parts, out, what):
             expect('several-colons-without-brackets-read-leniently-as-a-bare-address', raw, dflt)
     elif is_digits(rest):
         expect('name-colon-digits-splits-into-host-and-port', name, digits_value(rest))
-        v.cover('any-name-port')
+        v.cover('name-port')
 
 
 @harness(PROP, WREQ + '.host', setup=_base_setup, inline=[PARSE_HOST])
 def wsgi_host(v):
-    shape, raw, parts = host_header(v)
-    env = server_env(v, host_value=raw)
+    env = server_env(v, host_value=host_header(v))
     req = wsgi_req(v, env)
     out = v.call(req)
-    spec_host_port(v, env, shape, parts, out, 'host')
+    spec_host_port(v, env, out, 'host')
 
 
 @harness(PROP, WREQ + '.port', setup=_base_setup, inline=[PARSE_HOST])
 def wsgi_port(v):
-    shape, raw, parts = host_header(v)
-    env = server_env(v, host_value=raw)
+    env = server_env(v, host_value=host_header(v))
     req = wsgi_req(v, env)
     out = v.call(req)
-    spec_host_port(v, env, shape, parts, out, 'port')
+    spec_host_port(v, env, out, 'port')
 
 
 def spec_netloc(env):
@@ -1150,6 +1197,168 @@ for _prop, _field, _fwd in (('uri', '_cached_uri', False), ('prefix', '_cached_p
 def wsgi_url_alias(v):
     cls = v.real(WREQ)
     v.check('url-is-an-alias-of-uri', cls.__dict__['url'] is cls.__dict__['uri'])
+
+
+# ---------------------------------------------------------------------------
+# access_route
+
+
+def bounded_split(v, s, sep, max_pieces):
+    """s.split(sep), for values with at most max_pieces pieces (assumed: see ASSUMPTIONS)."""
+    if not isinstance(s, SStr):
+        parts = s.split(sep)
+        v.assume(len(parts) <= max_pieces)
+        return parts
+    out, rest = [], s
+    for _ in range(max_pieces - 1):
+        if not contains(rest, sep):
+            break
+        h, _sep, rest = rest.partition(sep)
+        out.append(h)
+    v.assume(Not(contains(rest, sep)))
+    return out + [rest]
+
+
+def spec_node_host(src):
+    """RFC 7239 node = nodename [":" node-port]: the nodename (brackets of an IPv6 literal removed); the port may be digits or obfuscated ("_x")."""
+    if src.startswith('['):
+        if contains(src, ']:'):
+            return src[1:src.rfind(']:')]
+        return src[1:-1]
+    name, sep, rest = src.partition(':')
+    if not sep or contains(rest, ':'):
+        return src
+    return name
+
+
+ROUTE_KEYS = ['HTTP_FORWARDED', 'HTTP_X_FORWARDED_FOR', 'HTTP_X_REAL_IP', 'REMOTE_ADDR']
+
+
+def spec_access_route(v, env, hops, remote, xff_pieces):
+    if 'HTTP_FORWARDED' in env:
+        base = [spec_node_host(h.src) for h in hops if h.src is not None]
+    elif 'HTTP_X_FORWARDED_FOR' in env:
+        base = [p.strip() for p in xff_pieces]
+    elif 'HTTP_X_REAL_IP' in env:
+        base = [env['HTTP_X_REAL_IP']]
+    else:
+        base = []
+    if not base:
+        return [remote]
+    if base[-1] != remote:
+        return base + [remote]
+    return base
+
+
+ROUTE_INLINE = [PARSE_HOST, WREQ + '.get_header', WREQ + '.forwarded', WREQ + '.remote_addr']
+
+
+@harness(PROP, WREQ + '.access_route', setup=_base_setup, inline=ROUTE_INLINE)
+def wsgi_access_route(v):
+    env = wsgi_env(v, optional=ROUTE_KEYS)
+    req = wsgi_req(v, env)
+    remote = env.get('REMOTE_ADDR', '127.0.0.1')
+    parser = forwarded_parser(v, max_hops=2, fields=('src',))
+    # bounded: at most MAX_PIECES comma-separated addresses in X-Forwarded-For (the comprehension treats every piece alike)
+    xff = bounded_split(v, env['HTTP_X_FORWARDED_FOR'], ',', MAX_PIECES) if 'HTTP_X_FORWARDED_FOR' in env else None
+    with patched(v, WM, '_parse_forwarded_header', parser):
+        out = v.call(req)
+        escape_only_400(v, out)
+        n1 = len(parser.calls)
+        if out.exc is not None:
+            again = v.call(req)
+            v.check('failed-access-leaves-no-partial-route-cached', again.exc is not None and again.exc.cls is out.exc.cls)
+            return
+        want = spec_access_route(v, env, hops_of(parser), remote, xff)
+        v.check('route-is-forwarded-then-x-forwarded-for-then-x-real-ip-then-remote-addr', same_value(list(out.value), want))
+        v.check('route-ends-with-the-remote-address', len(out.value) >= 1 and out.value[-1] == remote)
+        v.check('result-cached', v.get(req, '_cached_access_route') is out.value)
+        clobber(v, env, list(env))
+        v.set(req, '_cached_forwarded', None)
+        again = v.call(req)
+        v.check('second-access-returns-the-identical-list-without-recomputing', again.exc is None and again.value is out.value and len(parser.calls) == n1)
+        v.cover('route')
+
+
+@harness(PROP, WREQ + '.remote_addr', setup=_base_setup)
+def wsgi_remote_addr(v):
+    env = wsgi_env(v, optional=['REMOTE_ADDR'])
+    req = wsgi_req(v, env)
+    out = v.call(req)
+    v.check('remote-addr-is-the-server-supplied-address-or-loopback', out.exc is None and out.value == env.get('REMOTE_ADDR', '127.0.0.1'))
+
+
+# ---------------------------------------------------------------------------
+# accept checks
+
+MEDIATYPES = 'falcon.util.mediatypes'
+
+
+def quality_parser(v):
+    """mediatypes.quality: a q-value in [0, 1], or ValueError for a malformed Accept header."""
+    return Parser(v, 'quality', [lambda: 0.0, lambda: 1.0, lambda: 0.3], may_raise=True)
+
+
+def spec_accepts(accept, media_type, parser, idx):
+    """(expected answer, number of quality() calls consumed); from the documentation of client_accepts."""
+    if accept == media_type or accept == '*/*':
+        return True, 0
+    if idx >= len(parser.log):
+        return None, 0
+    kind, q = parser.log[idx]
+    return (kind == 'returned' and q != 0.0), 1
+
+
+def accept_of(env):
+    raw = env.get('HTTP_ACCEPT')
+    if raw is None or not _nonempty(raw):
+        return '*/*'
+    return raw
+
+
+@harness(PROP, WREQ + '.client_accepts', setup=_base_setup, inline=[WREQ + '.accept'])
+def wsgi_client_accepts(v):
+    env = wsgi_env(v, optional=['HTTP_ACCEPT'])
+    req = wsgi_req(v, env)
+    media_type = v.str('media_type')
+    parser = quality_parser(v)
+    with patched(v, MEDIATYPES, 'quality', parser):
+        out = v.call(req, media_type)
+    escape_only_400(v, out)
+    accept = accept_of(env)
+    want, used = spec_accepts(accept, media_type, parser, 0)
+    v.check('exact-match-or-wildcard-else-nonzero-quality-else-false', out.exc is None and want is not None and out.value is want)
+    v.check('quality-consulted-only-when-needed', len(parser.calls) == used)
+    if used:
+        a, k = parser.calls[0]
+        v.check('quality-receives-media-type-and-accept-header', len(a) == 2 and a[0] == media_type and a[1] == accept)
+        v.cover('parsed')
+
+
+def _accepts_property(media_types):
+    def h(v):
+        env = wsgi_env(v, optional=['HTTP_ACCEPT'])
+        req = wsgi_req(v, env)
+        parser = quality_parser(v)
+        with patched(v, MEDIATYPES, 'quality', parser):
+            out = v.call(req)
+        escape_only_400(v, out)
+        accept = accept_of(env)
+        idx, want = 0, False
+        for mt in media_types:
+            w, used = spec_accepts(accept, mt, parser, idx)
+            idx += used
+            if w:
+                want = True
+                break
+        v.check('true-iff-the-client-accepts-the-media-type', out.exc is None and out.value is want)
+
+    return h
+
+
+for _prop, _mts in (('client_accepts_json', ['application/json']), ('client_accepts_xml', ['application/xml']),
+                    ('client_accepts_msgpack', ['application/x-msgpack', 'application/msgpack'])):
+    harness(PROP, WREQ + '.' + _prop, name='wsgi_' + _prop, setup=_base_setup, inline=[WREQ + '.accept', WREQ + '.client_accepts'])(_accepts_property(_mts))
 
 
 ASSUMPTIONS = []
